@@ -85,6 +85,7 @@ Definition s_empty_end : bytes := Eval vm_compute in bs "/>".
 Definition s_end_open : bytes := Eval vm_compute in bs "</".
 Definition s_cdata_open : bytes := Eval vm_compute in bs "<![CDATA[".
 Definition s_cdata_close : bytes := Eval vm_compute in bs "]]>".
+Definition s_cdata_split : bytes := Eval vm_compute in bs "]]]]><![CDATA[>".
 Definition s_devinf_wbxml : bytes := Eval vm_compute in bs "application/vnd.syncml-devinf+wbxml".
 Definition s_devinf_xml : bytes := Eval vm_compute in bs "application/vnd.syncml-devinf+xml".
 Definition s_dmtnds_wbxml : bytes := Eval vm_compute in bs "application/vnd.syncml.dmtnds+wbxml".
@@ -226,36 +227,31 @@ Definition xml_header (l : xlang) (o : opts) : bytes :=
 (* ------------------------------------------------------------------ *)
 (* xml_encode_tag                                                      *)
 
-(* what xml_encode_tag looks at in node->parent *)
-Inductive pinfo :=
-| PRoot                      (* node->parent == NULL *)
-| PElt (nm : tname)          (* parent is an element *)
-| POther.                    (* parent is a CDATA node *)
+(* what xml_encode_tag looks for above the node: the code page of the nearest ancestor that is an element with
+   a token name (the loop over node->parent skips literal elements and CDATA nodes); None = there is none *)
+Definition pinfo := option N.
 
-(* node->name->u.token->wbxmlCodePage.  For a literal name the C reads the inactive union member: u.literal
-   points to a WBXMLBuffer { WB_UTINY *data; WB_ULONG len; ... } and wbxmlCodePage sits at the offset of the low
-   byte of len (x86-64, little endian) — only reachable when parent == NULL (a literal ROOT element). *)
-Definition tname_page (n : tname) : N :=
-  match n with TTok r => tr_page r | TLit s => u8 (N.of_nat (List.length s)) end.
+(* the information the children of an element / of a CDATA node are encoded with *)
+Definition pinfo_below (parent : pinfo) (nm : tname) : pinfo :=
+  match nm with TTok r => Some (tr_page r) | TLit _ => parent end.
 
+(* only a token name has a code page (node->name->type == WBXML_VALUE_TOKEN is tested first) *)
 Definition ns_wanted (parent : pinfo) (nm : tname) : bool :=
-  match parent with
-  | PRoot => true
-  | PElt (TTok pr) => match nm with TTok r => negb (tr_page pr =? tr_page r) | TLit _ => false end
-  | PElt (TLit _) => false
-  | POther => false
+  match nm with
+  | TLit _ => false
+  | TTok r => match parent with None => true | Some pg => negb (pg =? tr_page r) end
   end.
 
 Definition xmlns_part (l : xlang) (parent : pinfo) (nm : tname) : bytes :=
-  match xl_ns l with
-  | None => []
-  | Some nst =>
+  match xl_ns l, nm with
+  | Some nst, TTok r =>
     if ns_wanted parent nm then
-      match get_xmlns nst (tname_page nm) with
+      match get_xmlns nst (tr_page r) with
       | Some ns => s_xmlns ++ ns ++ [34]
       | None => []
       end
     else []
+  | _, _ => []
   end.
 
 Definition xml_encode_tag (l : xlang) (o : opts) (parent : pinfo) (nm : tname) (s : est) : bytes * est :=
@@ -319,9 +315,24 @@ Definition text_policy (o : opts) (s : est) (content : bytes) : option bytes :=
     else Some (if o_remove_blanks o then strip_blanks content else content)
   else Some content.
 
+(* in a CDATA section the text is copied, except that every "]]>" is emitted as "]]]]><![CDATA[>": "]]" ends
+   the current section and ">" starts the next one (the loop scans left to right, occurrences cannot overlap) *)
+Fixpoint split_cdata_end (s : bytes) : bytes :=
+  match s with
+  | [] => []
+  | a :: t =>
+    match t with
+    | b :: c :: r =>
+      if (a =? 93) && (b =? 93) && (c =? 62)
+      then s_cdata_split ++ split_cdata_end r
+      else a :: split_cdata_end t
+    | _ => a :: split_cdata_end t
+    end
+  end.
+
 Definition xml_encode_text (l : xlang) (o : opts) (s : est) (str : bytes) : xres (bytes * est) :=
   let s' := mk_est (e_indent s) true (e_in_cdata s) (e_cur_tag s) in
-  if e_in_cdata s then XOk (str, s')
+  if e_in_cdata s then XOk (split_cdata_end str, s')
   else
     (* the "Indent Content" loop is guarded by wbxml_tree_node_have_child_elt(node) on the TEXT node itself,
        which has no children: never taken *)
@@ -371,7 +382,7 @@ Fixpoint enc_node (l : xlang) (o : opts) (parent : pinfo) (s : est) (n : node) {
     match ch with
     | [] => XOk (b1 ++ b2 ++ b3, s3)
     | _ =>
-      match seq_nodes (enc_node l o (PElt nm)) ch s3 with
+      match seq_nodes (enc_node l o (pinfo_below parent nm)) ch s3 with
       | XOk (b4, s4) =>
         let '(b5, s5) := xml_encode_end_tag o nm ch s4 in
         XOk (b1 ++ b2 ++ b3 ++ b4 ++ b5, s5)
@@ -380,7 +391,7 @@ Fixpoint enc_node (l : xlang) (o : opts) (parent : pinfo) (s : est) (n : node) {
     end
   | Text c => parse_text l o s c
   | CData ch =>
-    match seq_nodes (enc_node l o POther) ch (set_cdata true s) with
+    match seq_nodes (enc_node l o parent) ch (set_cdata true s) with
     | XOk (b, s1) => XOk (s_cdata_open ++ b ++ s_cdata_close, set_cdata false s1)
     | XErr e => XErr e
     end
@@ -391,7 +402,7 @@ Fixpoint enc_node (l : xlang) (o : opts) (parent : pinfo) (s : est) (n : node) {
     match sl with
     | None => XErr X_BAD_PARAMETER
     | Some l' =>
-      match seq_nodes (enc_node l' o PRoot) roots (est0 (e_indent s)) with
+      match seq_nodes (enc_node l' o None) roots (est0 (e_indent s)) with
       | XOk (b, _) => XOk (cstr b, s)
       | XErr e => XErr e
       end
@@ -403,7 +414,7 @@ Definition enc_nodes (l : xlang) (o : opts) (parent : pinfo) : list node -> est 
 
 (* wbxml_tree_to_xml: header (xml_build_result / xml_fill_header) followed by the body *)
 Definition enc_xml_opts (l : xlang) (o : opts) (roots : list node) : xres bytes :=
-  match enc_nodes l o PRoot roots (est0 0) with
+  match enc_nodes l o None roots (est0 0) with
   | XOk (b, _) => XOk (xml_header l o ++ b)
   | XErr e => XErr e
   end.
